@@ -94,6 +94,10 @@ func (c *Ctx) resolveType(pkg *types.Package, t *TypeExpr) *resolvedType {
 		if name == "byte" {
 			name = "uint8"
 		}
+		if name == "ref" && t.Pkg == "" {
+			// any reference (pointer, map, channel): sort Ref
+			return &resolvedType{Go: types.Typ[types.UnsafePointer]}
+		}
 		T := c.W.resolveNamedType(pkg, t.Pkg, name)
 		if T == nil {
 			c.fail("spec: unknown type %s", t)
@@ -737,6 +741,13 @@ func (e *Env) evalCall(x *ECall) Val {
 				return Val{T: types.Typ[types.Int], L: []string{c.chanLen(e.stOf(v), v.L[0])}}
 			}
 			c.fail("spec: len of %s", v.T)
+		case "ownerOf":
+			v := e.eval(x.Args[0])
+			if len(v.L) != 1 {
+				c.fail("spec: ownerOf needs a reference")
+			}
+			c.declFun("ownerOf", SRef, SRef)
+			return Val{T: types.Typ[types.UnsafePointer], L: []string{app("ownerOf", v.L[0])}}
 		case "iface":
 			// iface(x): the interface value holding x with its static type
 			v := e.eval(x.Args[0])
@@ -1097,19 +1108,19 @@ func (e *Env) evalOpaque(p *PureDecl, x *ECall) Val {
 	bound := false
 	for _, a := range argTerms {
 		if strings.Contains(a, "!q") {
-			bound = true // instance under a quantifier: cannot be named or revealed at top level
+			bound = true // instance under a quantifier: cannot be named at top level
 		}
 	}
+	var t string
 	if bound {
-		return boolVal(app(fn, terms...))
+		t = app(fn, terms...)
+	} else {
+		t = c.define("op_"+p.Name, SBool, app(fn, terms...))
 	}
-	t := c.define("op_"+p.Name, SBool, app(fn, terms...))
 	if reveal {
-		key := "reveal:" + app(fn, terms...)
-		if !c.declared[key] {
-			c.declared[key] = true
-			c.items = append(c.items, Item{Kind: "assert", Body: tEq(t, body)})
-		}
+		// where the definition is revealed the atom stands for "atom and body": assumptions get the body directly
+		// (quantifiers stay in positive position), goals are split into the body's conjuncts by splitGoal
+		return boolVal(tAnd(t, body))
 	}
 	return boolVal(t)
 }
